@@ -109,9 +109,16 @@ let show_ep e = match e with
   | EReferrers d -> "refs:" ^ hx d
 let show_meth m = match m with GET -> "GET" | HEAD -> "HEAD" | PUT -> "PUT" | POST -> "POST" | DELETE -> "DELETE"
 
+(* how requests are turned into URLs in the current case: PlainHTTP, registry host, ReferrerListPageSize;
+   printed as the first 12 hex digits of the SHA-256 of the URL *)
+let url_ctx : (bool * str * n) ref = ref (false, [], N0)
+let url_tag q =
+  let (plain, host, rp) = !url_ctx in
+  String.sub (sha256_hex (List.map int_of_n (request_url plain host rp q))) 0 12
+
 let show_req q =
-  Printf.sprintf "%s,%s,%s,dg=%s,mt=%s,ac=%s,ct=%s,cl=%s,rg=%s,b=%s"
-    (show_meth q.q_m) (hx q.q_repo) (show_ep q.q_ep) (show_ostr q.q_digest)
+  Printf.sprintf "%s,%s,%s,u=%s,dg=%s,mt=%s,ac=%s,ct=%s,cl=%s,rg=%s,b=%s"
+    (show_meth q.q_m) (hx q.q_repo) (show_ep q.q_ep) (url_tag q) (show_ostr q.q_digest)
     (show_opt (fun (d, f) -> hx d ^ "+" ^ hx f) q.q_mount)
     (show_ostr q.q_accept) (show_ostr q.q_ctype) (show_opt show_n q.q_clen)
     (show_opt (fun (a, b) -> show_n a ^ "-" ^ show_n b) q.q_range) (hx q.q_body)
@@ -191,6 +198,12 @@ let history toks =
     | None -> 0 in
   let limit = eff_limit (n_of_int maxmeta) in
   let skip_gc = String.length plain > 2 && plain.[1] = 'g' && plain.[2] = '1' in
+  let ref_page =
+    (* ...r<ReferrerListPageSize>t... *)
+    match String.index_opt plain 'r', String.index_opt plain 't' with
+    | Some i, Some j when j > i -> (try int_of_string (String.sub plain (i + 1) (j - i - 1)) with _ -> 0)
+    | _ -> 0 in
+  url_ctx := (String.length plain > 0 && plain.[0] = '1', str_of_hex "72656769737472792e6578616d706c65", n_of_int ref_page);
   let rst = match nexti () with 0 -> RSUnknown | 1 -> RSSupported | _ -> RSUnsupported in
   let nm = nexti () in
   let mts = List.init nm (fun _ -> str_of_hex (next ())) in
